@@ -1109,6 +1109,10 @@ func runC13(c *Ctx) {
 	}()
 	r.note("model dimAware (regenerated from moveOutArrayDir) = %s", c.Drv.Ask("C13.dimaware"))
 
+	if os.Getenv("C13_MAPPED_CASE") != "" {
+		c13MappedStream(c, r)
+		return
+	}
 	// corpus first
 	c13Corpus(c, r)
 
